@@ -392,7 +392,7 @@ pub fn templates(prop: &str) -> Vec<Template> {
                     family: f,
                     discs: discs_of(f),
                     repls: if mergeable(f) { vec![Repl::Ops, Repl::Ops, Repl::Hybrid] } else { vec![Repl::Ops] },
-                    clauses: vec!["validate.origin", "validate.deliver", "validate.any"],
+                    clauses: vec!["validate.origin", "validate.deliver", "validate.any", "validate.payload"],
                     faults: with(&NET, &["crash"]),
                     p_probe: 150,
                     ..T::default()
